@@ -121,6 +121,12 @@ def all_styles():
     return out
 
 
+def named_styles():
+    """The names cpprint documents for its style parameter -> the style they stand for."""
+    from prettyprinter.color import GitHubLightStyle, default_dark_style
+    return [('light', GitHubLightStyle), ('dark', default_dark_style)]
+
+
 def set_mode(mode):
     import colorful
     {'8': colorful.use_8_ansi_colors, '256': colorful.use_256_ansi_colors, 'true': colorful.use_true_colors}[mode]()
@@ -203,7 +209,9 @@ def check_value(v, vi, part, styles, modes, widths):
 def doc_alphabet():
     leaves = [['t', 'a'], ['t', ' b'], ['line']]
     unary = [lambda d: ['group', d], lambda d: ['ann', 'T:KEYWORD_CONSTANT', d], lambda d: ['ann', 'T:LITERAL_STRING', d],
-             lambda d: ['ann', 'T:COMMENT_SINGLE', d], lambda d: ['ann', 'other', d]]
+             lambda d: ['ann', 'T:COMMENT_SINGLE', d], lambda d: ['ann', 'other', d],
+             # not syntax tokens, but equal (==) to the numbers of the tokens above: 1 == KEYWORD_CONSTANT, 6.0 == LITERAL_STRING
+             lambda d: ['ann', 1, d], lambda d: ['ann', 6.0, d]]
     return docalg.Alphabet(leaves, unary, fc=False, cat=(2, 3), fill=None)
 
 
@@ -231,6 +239,15 @@ def check_doc(term, part, styles):
             case = {'term': term, 'show': docalg.show(term), 'width': w, 'style': sname}
             s = io.StringIO()
             try:
+                # first with other line-break strings (must equal the plain renderer with the same strings) ...
+                s2 = io.StringIO()
+                colored_render_to_stream(s2, list(sdocs), style=style, newline='\r\n', separator='\t')
+                chars2, _ = decode(s2.getvalue())
+                plain2 = default_render_to_str(list(sdocs), newline='\r\n', separator='\t')
+                if ''.join(c for c, _ in chars2) != plain2:
+                    part.violation('text-differs-from-plain', dict(case, newline='\\r\\n', separator='\\t'),
+                                   {'colored_stripped': ''.join(c for c, _ in chars2), 'plain': plain2})
+                # ... then with the defaults
                 colored_render_to_stream(s, list(sdocs), style=style)
                 chars, final = decode(s.getvalue())
             except Exception as e:     # noqa
@@ -282,6 +299,20 @@ def run(tier, seed):
         res.agg.n += 1
         if tok not in _SYNTAX_TOKEN_TO_PYGMENTS_TOKEN:
             res.agg.violation('token-without-mapping', {'token': tok.name})
+    # the style names documented for cpprint(style=...) give the same bytes as the style classes
+    from prettyprinter import cpprint
+    set_mode('true')
+    for name, style in named_styles():
+        for v in ([1, 'a', None], {'k': (1.5, b'x')}):
+            res.agg.n += 1
+            a, b = io.StringIO(), io.StringIO()
+            try:
+                cpprint(v, stream=a, style=style)
+                cpprint(v, stream=b, style=name)
+                if a.getvalue() != b.getvalue():
+                    res.agg.violation('named-style-differs-from-its-class', {'style': name, 'value': repr(v)}, {'by_name': b.getvalue()[:200]})
+            except Exception as e:     # noqa
+                res.agg.violation('style-makes-rendering-fail', {'style': name, 'value': repr(v), 'mode': 'true', 'width': 79}, '%s: %s' % (type(e).__name__, e))
     nvals = sum(1 for _ in corpus())
     modes = ('true', '256', '8')
     widths = (10, 30, 79)
